@@ -51,6 +51,8 @@ def crepr(e, depth=0):
         ax = call_arg_exprs(e.a)
         if e.a.path == "std::ops::Try::branch" and ax:
             return crepr(ax[0], depth + 1)
+        if e.a.path in ("std::convert::From::from", "std::convert::Into::into") and len(ax) == 1:
+            return crepr(ax[0], depth + 1)       # lossless conversion, like a widening cast
         return "%s(%s)" % (nm, ", ".join(crepr(a, depth + 1) for a in ax))
     if e.k == "binop":
         l, r = crepr(e.b, depth + 1), crepr(e.c, depth + 1)
@@ -62,12 +64,20 @@ def crepr(e, depth=0):
         if op in ("Eq", "Ne"):
             x, y = sorted([l, r])
             return "EQ(%s, %s)" % (x, y)
-        return "(%s %s %s)" % (l, op, r)
+        base = op.replace("WithOverflow", "").replace("Unchecked", "").replace("Wrapping", "")
+        if base in ("Add", "Mul", "BitOr", "BitAnd", "BitXor"):
+            l, r = sorted([l, r])
+        return "(%s %s %s)" % (l, base, r)
     if e.k == "unop":
         if e.a == "Not":
             return crepr(e.b, depth + 1)
         return "%s(%s)" % (e.a, crepr(e.b, depth + 1))
     if e.k == "cast":
+        from ..expr import INT_BITS
+        v = evaluate(e.a, {})
+        bits = INT_BITS.get(str(e.b))
+        if isinstance(v, int) and not isinstance(v, bool) and bits in (8, 16, 32, 64, 128):
+            return "const(%d)" % (v % (1 << bits))      # `-1i64 as u64` is u64::MAX
         return crepr(e.a, depth + 1)
     if e.k in ("discr", "repeat"):
         return "%s(%s)" % (e.k, crepr(e.a, depth + 1))
@@ -75,6 +85,8 @@ def crepr(e, depth=0):
         b_ = e.b
         if b_ in ("Continue.0", "Ok.0"):
             b_ = "Ok.0"
+        if b_ == "0" and e.a.k == "binop" and "WithOverflow" in e.a.a:
+            return crepr(e.a, depth + 1)       # the value of a checked arithmetic pair
         return "%s.%s" % (crepr(e.a, depth + 1), b_)
     if e.k == "index":
         return "%s[%s]" % (crepr(e.a, depth + 1), crepr(e.b, depth + 1) if isinstance(e.b, E) else "?")
@@ -96,61 +108,168 @@ def backend_view(prog, f, other_names):
         if g.name in ("compress", "load_u64_le", "loadm", "g1", "g2", "permute", "unpermute", "rotru64"):
             return False
         return short not in other_names
-    return inline(prog, f, pick=pick)
+    return inline(prog, f, pick=pick, value_combinators=True)
+
+
+def leaves(e, argc, depth=0):
+    """the set of things an expression is built from: parameters (`_N`), fields of parameters
+    (`_1.buf`), integer constants, lengths of those (`len(..)`), and the names of non-adapter calls;
+    temporaries with several definitions read `_t`.  Slicing/borrowing adapters are transparent."""
+    from ..expr import E
+    out = set()
+    if e is None or depth > 10:
+        return out
+    if e.k == "const":
+        if isinstance(e.a, int) and not isinstance(e.a, bool):
+            out.add("c%d" % e.a)
+        elif e.b:
+            out.add("c:%s" % str(e.b).split("::")[-1])
+        return out
+    if e.k == "local":
+        out.add("_%d" % e.a if e.a <= argc else "_t")
+        return out
+    if e.k == "field":
+        base = e
+        names = []
+        while base is not None and base.k == "field":
+            names.append(e.b if base is e else base.b)
+            base = base.a
+        if base is not None and base.k == "local" and base.a <= argc and not any(n_[0].isdigit() or n_[0].isupper() for n_ in names):
+            out.add("_%d.%s" % (base.a, ".".join(reversed(names))))
+            return out
+        return leaves(e.a, argc, depth + 1)
+    if e.k == "call":
+        nm = e.a.rpath.split("::")[-1]
+        ax = call_arg_exprs(e.a)
+        if nm in ("len", "is_empty") and ax:
+            out.add("len(%s)" % ",".join(sorted(leaves(ax[0], argc, depth + 1))))
+            return out
+        if nm not in PURE_CALLS and not e.a.path.startswith(("std::ops::Try", "std::convert")):
+            out.add(nm + "()")
+        for a in ax:
+            out |= leaves(a, argc, depth + 1)
+        return out
+    for x in (e.a, e.b, e.c):
+        if isinstance(x, E):
+            out |= leaves(x, argc, depth + 1)
+        elif isinstance(x, (list, tuple)):
+            for y in x:
+                if isinstance(y, E):
+                    out |= leaves(y, argc, depth + 1)
+    return out
+
+
+def decision(e, argc):
+    """canonical, spelling-independent form of a branch condition: (relation, leaves of the smaller
+    side, leaves of the larger side); `a < b`, `b > a`, `!(a >= b)` agree, `==`/`!=` are unordered,
+    `x.is_empty()` is `len(x) == 0`, `?`/negation are transparent"""
+    while e is not None and ((e.k == "unop" and e.a == "Not") or e.k == "cast"):
+        e = e.b if e.k == "unop" else e.a
+    if e is None:
+        return None
+    if e.k == "call" and e.a.path == "std::ops::Try::branch":
+        ax = call_arg_exprs(e.a)
+        return decision(ax[0], argc) if ax else None
+    fmt = lambda s_: "{%s}" % ",".join(sorted(s_))
+    if e.k == "binop" and e.a in ("Lt", "Ge", "Gt", "Le"):
+        l, r = leaves(e.b, argc), leaves(e.c, argc)
+        if e.a in ("Gt", "Le"):
+            l, r = r, l
+        return "LT %s %s" % (fmt(l), fmt(r))
+    if e.k == "binop" and e.a in ("Eq", "Ne"):
+        l, r = fmt(leaves(e.b, argc)), fmt(leaves(e.c, argc))
+        return "EQ %s %s" % tuple(sorted([l, r]))
+    if e.k == "call" and e.a.rpath.split("::")[-1] == "is_empty":
+        ax = call_arg_exprs(e.a)
+        return "EQ %s %s" % tuple(sorted(["{c0}", "{len(%s)}" % ",".join(sorted(leaves(ax[0], argc)))]))
+    if e.k == "discr":
+        return "MATCH %s" % fmt(leaves(e.a, argc))
+    return "TEST %s" % fmt(leaves(e, argc))
 
 
 def signature(prog, f0, other_names=()):
+    """What a backend function decides and does, independent of how it is spelled: the set of its
+    decisions over inputs/state (see `decision`), and its effectful calls (by name, with multiplicity).
+    Pure reads, slicing idioms, temporaries, `?` vs `match`, helper boundaries and arithmetic-overflow
+    assertions are not part of the signature."""
     f = backend_view(prog, f0, set(other_names))
     sig = Counter()
     sites = {}
     reach = f.reachable(0)
+    ref = re.compile(r"_[1-9]")
     for b in sorted(reach):
         blk = f.blocks[b]
         if blk["cleanup"]:
             continue
         t = blk["t"]
+        # values stored into the caller-visible state (through a parameter): the arithmetic itself,
+        # canonicalised (commutative operands sorted, casts and checked-arithmetic wrappers transparent)
+        for st in blk["s"]:
+            if st["k"] != "assign" or not st["place"]["p"] or "deref" not in st["place"]["p"]:
+                continue
+            from ..core import strip_reborrow
+            base_l = strip_reborrow(f, st["place"]["l"])[-1]       # the receiver of a folded-in helper is the caller's
+            if not (1 <= base_l <= f.argc):
+                continue
+            rv = st["rv"]
+            if rv["k"] not in ("use", "cast", "binop", "unop"):
+                continue
+            from ..expr import expr_of_def
+            i_ = blk["s"].index(st)
+            val = norm(crepr(expr_of_def(f, -1, "assign", st, 0, None, (b, i_))), f.argc)
+            place = "_%d%s" % (base_l, "".join(("[%s]" % pe.get("cidx", "i")) if isinstance(pe, dict) and ("cidx" in pe or "idx" in pe)
+                                                        else (".%s" % pe["n"] if isinstance(pe, dict) and "f" in pe else "") for pe in st["place"]["p"]))
+            if LANE.search(val) or LANE.search(place) or "_t" in val and not ref.search(val):
+                continue
+            k = "store %s := %s" % (place, val[:160])
+            sig[k] += 1
+            sites.setdefault(k, "%s:%s" % (blk.get("file", f.file), (st.get("ln") or [f.lo])[0] if isinstance(st.get("ln"), list) else st.get("ln")))
         if t["k"] == "switch":
             e = expr_of_operand(f, t["x"])
             if isinstance(evaluate(e, {}), (bool, int)):
                 continue
-            s = norm(crepr(e), f.argc)
-            if LANE.search(s):
+            if LANE.search(norm(crepr(e), f.argc)):
                 continue
-            k = "branch on %s" % s
-            sig[k] += 1
+            d = decision(e, f.argc)
+            if d is None or not ref.search(d):
+                continue      # decisions over temporaries/constants only: loop counters, lane indices
+            k = "branch on %s" % d
+            sig[k] = 1
             sites.setdefault(k, f.loc(b))
         elif t["k"] == "assert":
+            if t["msg"].startswith(("Overflow", "BoundsCheck", "DivisionByZero", "RemainderByZero")) or "Pointer" in t["msg"]:
+                continue      # compiler-inserted checks of the arithmetic/indexing spelling
             e = expr_of_operand(f, t["cond"])
-            if isinstance(evaluate(e, {}), (bool, int)):
-                continue    # constant-index bounds check and the like
-            s = norm(crepr(e), f.argc)
-            if LANE.search(s):
-                continue
-            k = "assert %s %s" % (t["msg"], s)
-            sig[k] += 1
+            k = "assert %s %s" % (t["msg"], decision(e, f.argc))
+            sig[k] = 1
             sites.setdefault(k, f.loc(b))
         elif t["k"] == "call":
             c = f.call_at(b)
             nm = c.rpath.split("::")[-1]
-            if nm in ("compress", "zeroize", "load_u64_le", "loadm") or c.path.startswith(("std::simd", "core::simd", "core::core_simd", "std::core_simd")) or "Simd<" in c.full or "Simd::<" in c.full:
-                if nm == "compress":
-                    sig["call compress"] += 1
+            if nm in ("zeroize", "load_u64_le", "loadm") or c.path.startswith(("std::simd", "core::simd", "core::core_simd", "std::core_simd")) or "Simd<" in c.full or "Simd::<" in c.full:
                 continue
-            if c.path.startswith(("std::fmt", "core::fmt", "core::panicking", "std::hint", "std::convert::From::from", "std::ops::FromResidual", "std::ops::Try")) or nm in ("format", "must_use"):
+            if nm == "compress":
+                sig["call compress"] += 1
+                continue
+            if c.path.startswith(("std::fmt", "core::fmt", "core::panicking", "std::hint", "std::convert", "std::ops::FromResidual", "std::ops::Try", "std::array", "core::array")) or nm in ("format", "must_use"):
+                continue
+            if nm in PURE_CALLS:
                 continue
             args = [norm(crepr(a), f.argc) for a in call_arg_exprs(c)]
             if any(LANE.search(a) for a in args):
                 continue
-            k = "call %s(%s)" % (nm, ", ".join(a[:90] for a in args))
+            k = "call %s" % nm
             sig[k] += 1
             sites.setdefault(k, c.loc())
     return sig, sites
 
 
 PURE_CALLS = {"index", "index_mut", "len", "is_empty", "deref", "deref_mut", "as_slice", "as_mut_slice", "as_ref", "as_mut",
-              "chunks_exact", "chunks", "iter", "iter_mut", "into_iter", "next", "enumerate", "zip", "min", "max", "size_of",
-              "default", "as_ptr", "as_mut_ptr", "unwrap", "expect", "try_from", "try_into", "into", "split_at", "split_at_mut",
-              "get", "get_mut", "first", "last", "remainder", "is_some", "is_none", "is_ok", "is_err", "unwrap_or", "clone"}
+              "chunks_exact", "chunks", "chunks_exact_mut", "chunks_mut", "iter", "iter_mut", "into_iter", "next", "enumerate", "zip",
+              "min", "max", "size_of", "default", "as_ptr", "as_mut_ptr", "unwrap", "expect", "try_from", "try_into", "into", "from",
+              "split_at", "split_at_mut", "get", "get_mut", "first", "last", "remainder", "is_some", "is_none", "is_ok", "is_err",
+              "unwrap_or", "clone", "copied", "cloned", "map_or", "map", "by_ref", "from_fn", "to_le_bytes", "from_le_bytes",
+              "from_raw_parts", "from_raw_parts_mut", "new_unchecked", "rev", "take", "skip", "step_by", "count", "splat"}
 
 
 def effectful(key):
@@ -197,27 +316,8 @@ def run(ctx, rep):
         n += 1
         sa_, la = signature(soft, a, set(mf))
         sb_, lb = signature(simd, b, set(sf))
-        if short in ("init0", "init_param"):
-            # lane initialisation differs by construction: compare guards/asserts only
-            sa_ = Counter({k: v for k, v in sa_.items() if not k.startswith("call ")})
-            sb_ = Counter({k: v for k, v in sb_.items() if not k.startswith("call ")})
-        # elements that mention no parameter/field are constant-only (lane loops, constant indices):
-        # representation detail, not a decision about input or state
-        ref = re.compile(r"_[1-9]\b")
-        sa_ = Counter({k: v for k, v in sa_.items() if ref.search(k) or k == "call compress"})
-        sb_ = Counter({k: v for k, v in sb_.items() if ref.search(k) or k == "call compress"})
-        # decisions (branch conditions, assertions) and pure reads (index, len, iterators, ...) are
-        # compared as sets: testing the same condition once or twice, or re-slicing the same range, is
-        # not a difference; calls with effects are compared with multiplicity
-        def flat(cn):
-            return Counter({k: (v if effectful(k) else 1) for k, v in cn.items()})
-        sa_, sb_ = flat(sa_), flat(sb_)
         only_a = sa_ - sb_
         only_b = sb_ - sa_
-        if short == "finalize":
-            # output extraction reads the lanes: to_le_bytes/copy_from_slice pairs may differ in operand spelling only
-            only_a = Counter({k: v for k, v in only_a.items() if "to_le_bytes" not in k})
-            only_b = Counter({k: v for k, v in only_b.items() if "to_le_bytes" not in k})
         ok = not only_a and not only_b
         detail = "%d decision/call sites agree" % sum(sa_.values()) if ok else (
             "software-only: %s | SIMD-only: %s" % (
